@@ -8,5 +8,7 @@
 mod util;
 #[cfg(kani)]
 mod c19_bbox;
+#[cfg(kani)]
+mod c07_kalman;
 #[cfg(all(kani, test))]
 mod playback;
